@@ -23,14 +23,45 @@ DOC_DEVIATIONS = [
     ("film_grain_denoise_strength=1000", "reject", "F10-film_grain-unchecked"),
     ("altref_nframes=13", "reject", "F10-altref_nframes-13"),
     ("source_width=65600", "reject", "F10-source_width-truncated-16bit"),
+    # found when the formerly code-defined conjuncts were written out by hand
+    ("frame_rate=241", "reject", "F10-frame_rate-241-integer-form"),
+    ("frame_rate_numerator=240001 frame_rate_denominator=1000", "reject", "F10-frame_rate-240.001-truncated"),
+    ("frame_rate_numerator=16777241 frame_rate_denominator=1", "reject", "F10-frame_rate_numerator-shift-wraps"),
+    ("rate_control_mode=1 intra_period_length=200", "accept", "F10-look_ahead-default-exceeds-120"),
+    ("enable_hbd_mode_decision=100", "reject", "F10-enable_hbd_mode_decision-unchecked-8bit"),
+    ("enable_manual_pred_struct=1 manual_pred_struct_entry_num=0", "reject", "F10-manual_pred_struct_entry_num-0"),
+    ("enable_manual_pred_struct=1 manual_pred_struct_entry_num=1 pred_struct_ref_list0[0]=1 pred_struct_ref_list1[0]=-2147483648", "reject",
+     "F10-manual_pred_struct-list1-int-overflow"),
+    ("number_hme_search_region_in_width=1 hme_level0_total_search_area_width=32 hme_level1_search_area_in_height_array[0]=300 "
+     "hme_level1_search_area_in_height_array[1]=300", "reject", "F10-hme-height-summed-over-width-regions"),
 ]
+
+SPEC = "lean/SvtVerif/Spec/ConfigDomain.lean"
+
+
+def spec_independent():
+    """The hand-written specification must not refer to anything the translator generates except the structures that mirror
+    the C structs: -> list of offending (line, name)."""
+    import re
+    gen = open(os.path.join(C.LEAN, "SvtVerif/Gen/Config.lean")).read()
+    names = set(m.group(1).split(".")[-1] for m in re.finditer(r"^(?:def|theorem|abbrev|instance)\s+([\w.]+)", gen, re.M))
+    names |= set(m.group(1) for m in re.finditer(r"^(?:def|theorem|abbrev)\s+([\w.]+)", gen, re.M))
+    names -= {"WellTyped"}
+    src = C.strip_lean_comments(open(os.path.join(C.VERIF, SPEC)).read())
+    hits = []
+    for i, line in enumerate(src.split("\n"), 1):
+        for m in re.finditer(r"[A-Za-z_][\w.']*", line):
+            w = m.group(0)
+            if w in names or w.split(".")[-1] in names or re.fullmatch(r"rej\d+|h_\w+|Gen\.Config\.\w+", w) or w.startswith("CSem."):
+                hits.append((i, w))
+    return hits
 
 
 def run(chk):
     g, terr = K.regenerate()
     pr = chk.proofs(MODULE, trusted_extra=K.TRUSTED) if g else None
-    model_ok = bool(g) and pr.build_ok
-    nrand = 1500 if chk.tier == "quick" else 40000
+    guard_hits = spec_independent() if g else []
+    nrand = 1000 if chk.tier == "quick" else 40000
     cases = K.gen_cases(chk, nrand)
     lines = [c for c, _ in cases]
     # deviations go through the same pipeline
@@ -39,26 +70,36 @@ def run(chk):
         base = "source_width=64 source_height=64 "
         dev_lines.append("CASE 0 " + base + ov)
     all_lines = lines + dev_lines
-    mout = K.run_model(all_lines) if model_ok else None
+    # the executable model and the executable specification do not depend on the proofs: they are evaluated even when a proof
+    # no longer checks, so that a configuration on which the real API leaves the specified domain can be found
+    mout = None
+    if g:
+        try:
+            mout = K.run_model(all_lines)
+        except (C.BuildError, RuntimeError) as e:
+            C.log("[C12] model driver unavailable: %s" % str(e)[-400:])
     # never hand the real library a configuration whose copy the model says runs out of bounds (it corrupts the handle)
-    run_idx, skipped_oob, skipped_opaque = [], 0, 0
+    run_idx, skipped_oob, skipped_ub = [], 0, 0
+    import re as _re
     for i, l in enumerate(all_lines):
         if mout is not None:
             m = K.kv(mout[i])
             if m.get("oob") == "1":
                 skipped_oob += 1
                 continue
-        if "enable_manual_pred_struct=" in l and not l.rstrip().endswith("enable_manual_pred_struct=0"):
-            skipped_opaque += 1
+        elif "number_hme_search_region_in_" in l or "manual_pred_struct_entry_num" in l:
             continue
-        if "number_hme_search_region_in_" in l and mout is None:
+        mm = _re.search(r"\bhierarchical_levels=(\d+)", l)
+        if mm and int(mm.group(1)) >= 31 and _re.search(r"\benable_manual_pred_struct=[1-9]", l):
+            skipped_ub += 1      # `1 << hierarchical_levels` with an unvalidated count >= 31: undefined in C (see TRUSTED)
             continue
         run_idx.append(i)
     rout, rrc = K.run_real([all_lines[i] for i in run_idx])
     real = {}
     for j, i in enumerate(run_idx):
         real[i] = K.kv(rout[j]) if j < len(rout) else {}
-    disagree_model, disagree_spec, normal_form_mismatch = [], [], []
+    disagree_model, disagree_spec, normal_form_mismatch, crashes, mps_crashes = [], [], [], [], []
+    pos = {i: j for j, i in enumerate(run_idx)}
     tags = {}
     accepted = rejected = 0
     fired_hist = {}
@@ -66,6 +107,12 @@ def run(chk):
         r = real[i]
         if "accept" not in r:
             raise C.BuildError("real harness produced no verdict for: %s (%s)" % (all_lines[i], rout[:3]))
+        if "crash" in r:
+            if i < len(lines):
+                spec_accepts = mout is not None and K.kv(mout[i]).get("spec") == "1"
+                (mps_crashes if (_re.search(r"\benable_manual_pred_struct=-?[1-9]", all_lines[i]) and spec_accepts) else crashes).append((all_lines[i], r["crash"]))
+            if r["accept"] not in ("0", "1"):
+                continue
         if r["accept"] == "1":
             accepted += 1
         else:
@@ -77,7 +124,7 @@ def run(chk):
             if m["accept"] != m["op"]:
                 normal_form_mismatch.append((all_lines[i], mout[i]))
             if m["accept"] != r["accept"]:
-                disagree_model.append((all_lines[i], mout[i], rout[run_idx.index(i)]))
+                disagree_model.append((all_lines[i], mout[i], rout[pos[i]]))
             if m["spec"] != r["accept"]:
                 disagree_spec.append((all_lines[i], m["spec"], r["accept"]))
             for f in m.get("fired", "").split(","):
@@ -88,13 +135,20 @@ def run(chk):
         i = len(lines) + k
         if i not in real:
             continue
-        got = "accept" if real[i]["accept"] == "1" else "reject"
+        got = ("crash(signal %s)" % real[i]["crash"]) if "crash" in real[i] else "accept" if real[i]["accept"] == "1" else "reject"
         if got != doc:
-            chk.violation("documented domain says %s, real svt_av1_enc_set_parameter %ss: defaults at 64x64 plus %s\n" % (doc, got, ov),
+            chk.violation("documented domain says %s, real svt_av1_enc_set_parameter: %s: defaults at 64x64 plus %s\n" % (doc, got, ov),
                           tag="doc", key=key)
+    # accepted manual prediction structures that the library cannot digest (known finding, one key for the family)
+    if mps_crashes:
+        l, sig = min(mps_crashes, key=lambda x: len(x[0]))
+        chk.violation("svt_av1_enc_set_parameter validates a manual prediction structure successfully and then dies / corrupts its heap while building the "
+                      "prediction structure (signal %s; %d such configurations in this run: entry count 0 or not a power of two, first list0 cell zero, ...)\nconfiguration: %s\n"
+                      % (sig, len(mps_crashes), l), tag="mps-crash", key="F10-manual_pred_struct-accepted-then-crash")
+    chk.cov["accepted_manual_pred_structs_crashing_the_library"] = len(mps_crashes)
     chk.cov["evaluations"] = len(run_idx)
-    chk.cov["distinct_nontrivial"] = len(set(all_lines[i] for i in run_idx if real[i]["accept"] == "0")) + len(
-        set(all_lines[i] for i in run_idx if real[i]["accept"] == "1" and i >= 1))
+    chk.cov["distinct_nontrivial"] = len(set(all_lines[i] for i in run_idx if real[i].get("accept") == "0")) + len(
+        set(all_lines[i] for i in run_idx if real[i].get("accept") == "1" and i >= 1))
     chk.cov["rule"] = ("configurations = library defaults at 64x64 + overrides: (a) each member at every constant the generated model compares it with, +-1, "
                        "type extremes; (b) pairwise/product grids of the coupled members; (c) seeded random multi-member overrides. Each is run through the REAL "
                        "svt_av1_enc_set_parameter on a fresh handle, the generated Lean model (normal form and operational form) and the hand-written spec. "
@@ -105,19 +159,30 @@ def run(chk):
     chk.cov["rules_fired_histogram"] = dict(sorted(fired_hist.items(), key=lambda kv: int(kv[0])))
     chk.cov["rules_never_fired"] = [i for i in range(getattr(g, "nchecks", 0)) if str(i) not in fired_hist] if g else []
     chk.cov["skipped_model_says_out_of_bounds_copy"] = skipped_oob
-    chk.cov["skipped_opaque_manual_pred_struct"] = skipped_opaque
+    chk.cov["skipped_undefined_shift_count"] = skipped_ub
+    chk.cov["manual_pred_struct_cases_run"] = sum(1 for i in run_idx if _re.search(r"\benable_manual_pred_struct=-?[1-9]", all_lines[i]))
+    chk.cov["spec_guard_hits"] = ["%s:%d %s" % (SPEC, ln, w) for ln, w in guard_hits[:10]]
     chk.cov["programs"] = 1
     chk.cov["disagreements_checked"] = len(run_idx)
     for i in (run_idx[len(run_idx) // 3], run_idx[-1]):
-        chk.sample({"case": all_lines[i], "real": rout[run_idx.index(i)], "model": mout[i] if mout else None})
+        chk.sample({"case": all_lines[i][:600], "real": rout[pos[i]], "model": mout[i] if mout else None})
     chk.assumptions += ["prior handle state is the fresh-handle state (zero SCS) in the replay; the theorem accept_iff_codeDomain quantifies over every prior state",
-                        "configurations with enable_manual_pred_struct != 0 are outside the modelled part (opaque validation loop)"]
+                        "the theorem assumes every member holds a value of its C type (Cfg.WellTyped / Scs.WellTyped)",
+                        "shift counts >= the operand width (undefined in C) are modelled mathematically; such configurations are not replayed"]
     # verdicts
     if disagree_spec:
-        l, sp, ra = disagree_spec[0]
+        l, sp, ra = min(disagree_spec, key=lambda x: len(x[0]))
         chk.violation("real svt_av1_enc_set_parameter deviates from the specified domain\nconfiguration: %s\nspecification (Spec/ConfigDomain.lean) says %s, real API %s\n"
                       "(%d such configurations in this run)\nreplay: echo '%s' | <setparam harness>\n" %
                       (l, "accept" if sp == "1" else "reject", "accepts" if ra == "1" else "rejects", len(disagree_spec), l))
+    elif crashes:
+        l, sig = crashes[0]
+        chk.violation("real svt_av1_enc_set_parameter crashes (signal %s) instead of returning an error code\nconfiguration: %s\n(%d such configurations in this run)\n"
+                      "replay: echo '%s' | <setparam harness>\n" % (sig, l, len(crashes), l))
+    elif guard_hits:
+        chk.violation("the hand-written specification refers to generated definitions (it must be independent of the translated code):\n%s\n"
+                      "no configuration found on which the real API deviates from the specification (%d tried)\n"
+                      % ("\n".join("%s:%d: %s" % (SPEC, ln, w) for ln, w in guard_hits[:20]), len(run_idx)), tag="spec-guard", found_input=False)
     elif g is None:
         chk.violation("translator refused the current source: %s\nno configuration found on which the real API deviates from the last checked specification\n" % terr,
                       tag="xlate", found_input=False)
